@@ -262,14 +262,16 @@ macro_rules! num_ops_common {
             x.map_with(y, |x, y| if x > y { !0 } else { 0 })
         }
 
+        // For floats, `min` and `max` return `y` if either operand is NaN or
+        // if both are zeros, like the x86 `minps` / `maxps` instructions.
         #[inline]
         fn min(self, x: $simd, y: $simd) -> $simd {
-            x.map_with(y, |x, y| x.min(y))
+            x.map_with(y, |x, y| if x < y { x } else { y })
         }
 
         #[inline]
         fn max(self, x: $simd, y: $simd) -> $simd {
-            x.map_with(y, |x, y| x.max(y))
+            x.map_with(y, |x, y| if x > y { x } else { y })
         }
     };
 }
